@@ -83,6 +83,29 @@ CHECKS = {
         note="Priority keys use LSU without the regional factor (named deviation PriorityIgnoresRegionalFactor: main() "
              "sorts before the factor is applied). Meat kcal per head is an input chosen by the harness. Tolerances as C06.",
     ),
+    "C08": dict(
+        technique="TLA+ spec Supply.tla: calendar / block / ramp facts checked by TLC; per-month recipes (indices and ramp stages) "
+                  "replayed against the real supply classes on generated inputs",
+        text="Supply.tla defines, for every simulated month, which calendar month, which model year, which ramp stage and which on/off "
+             "state each supply series uses (crops, greenhouse crops, fish, grass, feed and biofuel demand, single-cell protein, "
+             "cellulosic sugar, seaweed area and growth, initial stored food, year-1 harvest-before-May factor). TLC checks that "
+             "months advance through the calendar, that year blocks partition every horizon 48..120 (8, 12, ..., 16), that ramps "
+             "are monotone, capped and zero before their delay, and emits the recipes; the replayer evaluates them on seeded inputs "
+             "(quick 24 recipes x 6 input sets; thorough 6048 x 12) and compares every entry of every series with the real classes "
+             "at 1e-9, plus exact linearity in the baselines.",
+        design_ref="5 (C08), Supply.tla",
+        note="The product of looked-up floats after the recipe is evaluated outside TLC (index oracle). SCP's doubled delay + 12 "
+             "zero months is a named deviation pinned by the repository's own test.",
+    ),
+    "C09": dict(
+        technique="TLA+ spec Supply.tla (crop / greenhouse recipes): replay against OutdoorCrops + Greenhouses incl. small baselines",
+        text="Same recipes as C08 restricted to the cropland clauses: outdoor production = grown x (1 - greenhouse share) x (1 - "
+             "distribution waste) with the relocated series after harvest duration + rotation delay, greenhouse share zero before "
+             "delay + 5 then monotone up to its multiplier, relocation and expansion never lower a month, and no quantisation "
+             "(equality at 1e-9 with baselines down to 1e-4 billion kcal per year).",
+        design_ref="5 (C09), Supply.tla",
+        note="As C08.",
+    ),
     "C10": dict(
         technique="TLA+ spec Units.tla: conversion laws checked by TLC on monomial exponent vectors for all pairs/triples of "
                   "unit names; exported table replayed against get_conversion / in_units with exact fractions",
